@@ -470,6 +470,11 @@ func (g *gen) oneArgDir(depth int, arg *val) piece {
 
 func (g *gen) simpleDir() piece {
 	n := ""
+	if g.r.Chance(20) {
+		// a fresh-line request right after a newline, with a count
+		g.ctx.Hist("dir:&")
+		return piece{"~" + common.Pick(g.r, []string{"", "2", "1"}) + "%~" + common.Pick(g.r, []string{"", "0", "1", "2", "3"}) + "&", nil}
+	}
 	if g.r.Chance(45) {
 		s, a := g.numParam([]int{0, 1, 2, 3}, true)
 		d := common.Pick(g.r, []string{"%", "&", "~"})
